@@ -57,7 +57,7 @@ fn attr_escape(v: &str, charref: bool) -> String {
     let e = esc(v);
     if charref {
         // numeric character references are equivalent to the characters they denote
-        e.replacen('f', "&#102;", 1).replacen('A', "&#x41;", 1)
+        e.replacen('f', "&#102;", 1).replacen('A', "&#x41;", 1).replace('\n', "&#10;").replace('\t', "&#9;")
     } else {
         e
     }
@@ -80,6 +80,10 @@ fn statements(full: bool) -> Vec<Gen> {
         (Some(format!("bgpfu-fltr:{good1}")), Some(good1), "annotation, bare"),
         (Some(format!("/*  bgpfu-fltr:   {good3}   */")), Some(good3), "annotation, padded"),
         (Some(format!("/* bgpfu-fltr: {good2} */")), Some(good2), "annotation with characters that need escaping"),
+        // RPSL lets an attribute value continue on the next line (newline followed by white space)
+        (Some("/* bgpfu-fltr: AS-FOO\n    OR AS-BAR */".into()), Some("AS-FOO OR AS-BAR"), "annotation folded over two lines"),
+        (Some("/* bgpfu-fltr: AS-FOO AND\n\t{ 10.0.0.0/8 }^+\n */".into()), Some("AS-FOO AND { 10.0.0.0/8 }^+"), "annotation folded after an operator"),
+        (Some("/*\n * bgpfu-fltr: AS-FOO\n */".into()), None, "annotation marker on the second line of a block comment"),
         (Some("/* bgpfu-fltr: error! */".into()), None, "annotation, unparseable"),
         (Some("/* see bgpfu-fltr: AS-FOO */".into()), None, "annotation marker not at the start"),
     ];
